@@ -1542,7 +1542,7 @@ fn read_type_reference_code(reader: &mut impl ClassRead, labels: &mut Labels) ->
 			for _ in 0..length {
 				let start_pc = reader.read_u16()?;
 				let length = reader.read_u16()?;
-				let range = labels.get_or_create_range(start_pc, length)?;
+				let range = labels.get_or_create_range_or_end(start_pc, length)?;
 				let index = reader.read_u16_as_local_variable()?;
 				table.push((range, index));
 			}
@@ -1553,7 +1553,7 @@ fn read_type_reference_code(reader: &mut impl ClassRead, labels: &mut Labels) ->
 			for _ in 0..reader.read_u16()? {
 				let start_pc = reader.read_u16()?;
 				let length = reader.read_u16()?;
-				let range = labels.get_or_create_range(start_pc, length)?;
+				let range = labels.get_or_create_range_or_end(start_pc, length)?;
 				let index = reader.read_u16_as_local_variable()?;
 				table.push((range, index));
 			}
